@@ -21,7 +21,8 @@ import (
 //	IPToAddr(ip, v4):     the IPv4 address of the 4 bytes (of the last 4 of a mapped ip); else an error
 //	IPToAddr(ip, v6):     the IPv6 address of the 16 bytes (a 4-byte ip in its mapped form); else an error
 //	IPToAddrNoMapped(ip): IPv4 for a 4-byte or mapped ip, IPv6 for any other 16 bytes; else an error
-func c12ConvExact(c *Ctx) bool {
+func c12ConvExact(c *Ctx) (okExact bool) {
+	defer recoverUnsupported(c, &okExact, "c12ConvExact")
 	const rule = "C12.conv-exact"
 	to := c.fn("netutil", "IPToAddr")
 	nm := c.fn("netutil", "IPToAddrNoMapped")
